@@ -115,6 +115,8 @@ pub fn w<R>(f: impl FnOnce(&mut World) -> R) -> R {
 
 pub fn reset_world() {
   set_deadlock_ctx("");
+  DECOUPLED.with(|d| d.set(false));
+  OP_KIND.with(|d| d.set([0; 4]));
   hooks_disable();
   crate::cat::reset_handles();
   crate::h_subject::reset();
@@ -429,6 +431,24 @@ thread_local! {
   /// suffix a harness may give to the deadlock key (which composition, which extra operation)
   pub static DEADLOCK_CTX: RefCell<String> = RefCell::new(String::new());
 }
+thread_local! {
+  /// the pipeline under test promises that the producer never waits for the consumer (observe_on, delay)
+  pub static DECOUPLED: std::cell::Cell<bool> = std::cell::Cell::new(false);
+  /// what each logical thread's current operation is: 0 other, 1 next() into a source, 2 the pool worker polling
+  pub static OP_KIND: std::cell::Cell<[u8; 4]> = std::cell::Cell::new([0; 4]);
+}
+/// run `f` with the current logical thread's operation kind set (restored afterwards, also for a pre-empted operation)
+pub fn with_op_kind(kind: u8, f: impl FnOnce()) {
+  let cur = w(|w| w.threads.current).min(3);
+  let mut k = OP_KIND.with(|d| d.get());
+  let was = k[cur];
+  k[cur] = kind;
+  OP_KIND.with(|d| d.set(k));
+  f();
+  let mut k = OP_KIND.with(|d| d.get());
+  k[cur] = was;
+  OP_KIND.with(|d| d.set(k));
+}
 pub fn set_deadlock_ctx(s: &str) {
   DEADLOCK_CTX.with(|c| *c.borrow_mut() = s.to_string());
 }
@@ -740,7 +760,7 @@ fn lock_hook(ev: LockEvent, raw: usize) {
       enum R {
         SelfDeadlock(usize),
         Deadlock(usize, usize),
-        Blocked,
+        Blocked(usize),
       }
       let r = w(|w| {
         let id = norm_lock(w, raw);
@@ -755,7 +775,7 @@ fn lock_hook(ev: LockEvent, raw: usize) {
               Some(l2) if w.threads.held.get(cur).map_or(false, |h| h.contains(&l2)) => R::Deadlock(id, l2),
               _ => {
                 w.threads.blocked_pruned += 1;
-                R::Blocked
+                R::Blocked(o)
               }
             }
           }
@@ -765,7 +785,17 @@ fn lock_hook(ev: LockEvent, raw: usize) {
       match r {
         R::SelfDeadlock(id) => e::fail("would-block/lock-reacquired", || format!("lock #{} acquired again by the logical thread that holds it (std::sync::Mutex would block forever)", id)),
         R::Deadlock(a, b) => e::fail(&format!("deadlock/lock-cycle{}", DEADLOCK_CTX.with(|c| c.borrow().clone())), || format!("thread waits for lock #{} held by a thread that waits for lock #{} held by the first", a, b)),
-        R::Blocked => {
+        R::Blocked(owner) => {
+          // a producer's next() blocked by a lock that the pool's worker holds across the subscriber's callback:
+          // with a hand-off between that callback and the producer neither would ever return. Judged only where
+          // the harness says the pipeline decouples the two (observe_on / delay), the blocked operation is a
+          // next() and the lock's owner is the worker polling a task.
+          let cur = w(|w| w.threads.current);
+          let kinds = OP_KIND.with(|k| k.get());
+          let judged = DECOUPLED.with(|d| d.get()) && kinds.get(cur).copied() == Some(1) && kinds.get(owner).copied() == Some(2) && w(|w| w.probes.iter().any(|p| p.in_callback));
+          if judged {
+            e::fail(&format!("emitter-blocked-by-the-consumer-callback{}", DEADLOCK_CTX.with(|c| c.borrow().clone())), || "the producing thread's next() blocks on a lock that the worker thread holds for the whole subscriber callback: a callback that waits for the producer's next step (a plain hand-off, no re-entry) deadlocks".to_string());
+          }
           e::cover("thread-blocked-path-pruned");
           e::prune()
         }
